@@ -63,11 +63,23 @@ def r1_interval(ctx):
             if isinstance(x, (ast.ListComp, ast.DictComp, ast.GeneratorExp, ast.SetComp)):
                 comp = x
         if comp is None:
+            # a fresh dictionary filled by a loop:  d = {}; for k, v in XS: if <filter>: d[k] = v
+            from vk import listform
+            for x in ast.walk(e):
+                if isinstance(x, ast.Name):
+                    db = listform.dict_build_of(f.node, x)
+                    if db is not None and len(db.loops) == 1:
+                        pmf = astx.parents(f.node)
+                        inner = [c for c in astx.path_condition(f.node, db.node, pmf, carried=False) if any(y is c[0] for lp in astx.walk_own(f.node) if isinstance(lp, ast.For) for y in ast.walk(lp))]
+                        ks = sorted(literals(Normalizer(None, inline=False).conj(inner))) if inner else []
+                        return ks, astx.u(db.loops[0][1])
             return None
         return [bool_key(Normalizer(None, inline=False).guard(t)) for t in comp.generators[0].ifs], astx.u(comp.generators[0].iter)
     fz, fi = (filt(z) if z is not None else None), (filt(iv) if iv is not None else None)
     good = fz is not None and fi is not None and fz[1] == fi[1] == "self.interval.items()" and re.fullmatch(r"\['eq\((\w+), 0\)'\]", str(fz[0])) is not None \
-        and re.fullmatch(r"\['not le\((\w+), 0\)'\]", str(fi[0])) is not None and nz is not None and astx.u(nz) == "frozenset(self.interval)"
+        and re.fullmatch(r"\['not le\((\w+), 0\)'\]", str(fi[0])) is not None and nz is not None \
+        and (astx.u(nz) == "frozenset(self.interval)" or (iv is not None and isinstance(nz, ast.Call) and astx.u(nz.func) == "frozenset" and len(nz.args) == 1 and isinstance(nz.args[0], ast.Name)
+                                                           and isinstance(iv, ast.Call) and len(iv.args) == 1 and astx.u(iv.args[0]) == nz.args[0].id))
     ctx.check(good, f, f.node, "zero supports are set aside (== 0), positive ones kept (> 0), non_zero_cands = kept keys", f"{fz} / {fi}",
               f"partition filters are {fz} / {fi}")
     # the interval owns its data: both steps rebuild the mapping on every path (no early exit that
@@ -75,8 +87,13 @@ def r1_interval(ctx):
     from vk.paths import PathCounter
 
     def _stores_interval(n):
-        return isinstance(n, ast.Assign) and astx.u(n.targets[0]) == "self.interval" and isinstance(n.value, ast.Call) and \
-            any(isinstance(x, ast.DictComp) for x in ast.walk(n.value))
+        if not (isinstance(n, ast.Assign) and astx.u(n.targets[0]) == "self.interval" and isinstance(n.value, ast.Call)):
+            return False
+        if any(isinstance(x, ast.DictComp) for x in ast.walk(n.value)):
+            return True
+        from vk import listform
+        fn_ = next((g_.node for g_ in (prog.find_func("PreferenceInterval._normalize"), prog.find_func("PreferenceInterval._remove_zero_support_cands")) if any(y is n for y in ast.walk(g_.node))), None)
+        return fn_ is not None and any(isinstance(x, ast.Name) and listform.dict_build_of(fn_, x) is not None for x in ast.walk(n.value))
     for meth, fact in (("_normalize", lambda a: None), ("_remove_zero_support_cands", lambda a: False if a in ("truthy(self.zero_cands)", "truthy(self.non_zero_cands)") else None)):
         g = prog.find_func(f"PreferenceInterval.{meth}")
         exits = [e for e in PathCounter(g.node, _stores_interval, fact).run() if e.kind in ("return", "fall-off")]
@@ -243,6 +260,14 @@ def r4_slate_bt(ctx):
     good = isinstance(bts, astx.LCOMP) and len(bts.generators) == 2 and astx.u(bts.generators[0].iter) == "self.blocs" and \
         astx.u(bts.generators[1].iter) == f"range(len(self.pref_intervals_by_bloc[{bloc}][{astx.u(bts.generators[0].target)}].non_zero_cands))" \
         and astx.u(bts.elt) == astx.u(bts.generators[0].target)
+    if not good:
+        # the same repetition built by a loop:  L = []; for b in self.blocs: L.extend([b] * len(<b's supported candidates>))
+        from vk import listform
+        bo = listform.build_of(f.node, ast.Name(id="blocs_to_sample", ctx=ast.Load()))
+        if bo is not None and bo.kind == "flatmap" and not bo.conditional and astx.u(bo.iter) == "self.blocs":
+            Nb = Normalizer(f.node, inline=True)
+            good = Nb.key(bo.elt) == f"[{bo.var}] * len(self.pref_intervals_by_bloc[{bloc}][{bo.var}].non_zero_cands)"
+            bts = bo.node
     ctx.check(good, f, bts or f.node, "a type lists each slate as many times as it has supported candidates", "", "blocs_to_sample changed")
     from vk import listform
     good = False
